@@ -80,7 +80,7 @@ ADD = {
  "C09": " Plus every string over {name character, dot} up to 14 and over {name character, dot, backslash} up to 10 characters, well-formed paths with blank / tab / newline / NUL at their edges, and every one of the 1 367 631 four-character segments as single name (relative and rooted) and as first / last / middle segment, and a dictionary of 1 390 predefined ACPI names under every predefined scope and paired with each other.",
  "C10": " Plus value sweeps: Register over 13 spaces x every width x offsets x every access size, IO over every alignment x length, value-set minima x 5-6 maxima for every address-space kind with and without translation.",
  "C11": " Plus the value sweep of C01 over every option-bearing entry (every shape, every numeric argument through util::value_set x the enumerated arguments; argument pairs x the enumerated arguments), the CFMWS closure for every interleave-ways value x arithmetic and the TCPA closure for four address spaces of its address arguments.",
- "C12": " Plus every HMAT shape of a 34x34 (thorough 64x64) grid and every SLIT size 1..40 (100) and 128..400 with every cell assigned in three orders, and every locality type x data type x transfer size with untouched cells, all 65 536 cell values in six program forms on three shapes, all 256 x 256 SLIT distance pairs, and the large shapes with one and the same value in every cell.",
+ "C12": " Plus every HMAT shape of a 34x34 (thorough 64x64) grid and every SLIT size 1..40 (100) and 128..400 with every cell assigned in three orders, and every locality type x data type x transfer size with untouched cells, all 65 536 cell values in six program forms on three shapes, all 256 x 256 SLIT distance pairs, the large shapes with one and the same value in every cell, and every closure transition also run with the structure serialised after every operation.",
  "C13": " Plus state-relative writes (Length := current length + k, a copied header), update_checksum, generic write/append of GenericAddress, and lockstep programs on large tables (slices of every size to 1100 and around 4 KiB / 64 KiB, every initial length 36..1100, byte-by-byte growth to 5000 bytes), every typed append / sink / write with its value over util::value_set, and all 80 ACPI table signatures as constructor signature and written in place.",
  "C14": " Plus the stand-alone structures and fills of lower-case letters / blanks in the raw-form comparison, every public field of Rsdp / FACS / GAS set after construction, and the PackageBuilder sink in three origins (new, Default, left by mem::take).",
  "C15": " Plus strings with NUL / blank / quote / non-ASCII characters at either end, and PackageBuilder values obtained through Default and reused after core::mem::take; every character U+0000..U+07FF at the head, tail, inside of a string and every ASCII head pair, owned against borrowed; Scope::raw for every body size 0..70000 x spare capacity {0,1,7,64,4096}.",
